@@ -28,7 +28,7 @@ ASSUMPTIONS = ['the records "that had been written" are what sedfitter\'s own re
                'package authoring and convolution are only a means to obtain realistic records here; a scenario whose '
                'setup stage fails is discarded and counted, not failed']
 PROBES = ['reader_raised', 'exact_prefix_nonempty', 'exact_prefix_empty', 'crash_inside_metadata', 'crash_on_boundary',
-          'live_crash', 'live_enospc', 'observer_reads', 'filter_output_streams', 'with_model_fluxes', 'synthetic_big_record', 'path_written_before', 'cut_in_place', 'consumer_ran_on_cut_file_first', 'consumer_ran_on_previous_cut', 'records_yielded_before_the_error']
+          'live_crash', 'live_enospc', 'observer_reads', 'filter_output_streams', 'with_model_fluxes', 'synthetic_big_record', 'path_written_before', 'cut_in_place', 'consumer_ran_on_cut_file_first', 'consumer_ran_on_previous_cut', 'records_yielded_before_the_error', 'control_file_read_after_the_cuts']
 
 
 def budgets(tier):
@@ -100,6 +100,7 @@ def generate(rng, tier, idx):
     sc['observe'] = rng.random() < 0.3
     sc['consumer_on_cut'] = rng.choice([None, None, None, 'wp', 'wpr', 'ep'])
     sc['consumer_after_read'] = rng.random() < 0.5
+    sc['control_file'] = rng.random() < 0.4
     return sc
 
 
@@ -346,6 +347,15 @@ def _execute(sc, sim, out):
     if res[0] != 'ok':
         out.discarded = 'setup-writer:' + pipe.exc_name(res)
         return
+    # a second, complete fit file of the same sources written the other way round (without / with stored fluxes): it is
+    # read now and again after the cuts, and must keep reading back what was written
+    control = None
+    if sc.get('control_file'):
+        cpath = sim.path('control.fitinfo')
+        rc_, _f = _run_writer(dict(sc, mode='fit', output_convolved=not sc['output_convolved']), sim, W, d, lines, cpath)
+        gc_ = pipe.call(pipe.read_fit_sed, cpath) if rc_[0] == 'ok' else rc_
+        if gc_[0] == 'ok' and gc_[1]:
+            control = (cpath, [canon_record(x, meta=True) for x in gc_[1]])
     # write log of the fault-free run: cumulative offsets after each write, per file
     wlog = {}
     for ev in sim.events[n_ev0:]:
@@ -405,6 +415,12 @@ def _execute(sc, sim, out):
             if out.violations:
                 out.bad_offset = k
                 break
+        if control is not None and not out.violations:
+            out.probe('control_file_read_after_the_cuts')
+            rr = _read_partial(control[0])
+            oc = _judge(out, rr, control[1], None, 'the complete control file read after the cuts of %s' % os.path.basename(p), probes=False)
+            if not out.violations and oc != 'P%d' % len(control[1]):
+                out.violate('wrong-record', 'the complete control file no longer reads back its %d records after truncated files were read (%s)' % (len(control[1]), oc))
         if out.violations:
             break
     if not full:
@@ -500,6 +516,8 @@ def lowerings(sc, viol=None):
         m = re.search(r'cut at byte (\d+)', viol['message'])
         if m:
             yield dict(sc, offsets={'mode': 'list', 'list': [int(m.group(1))]}, live=[], observe=False)
+    if sc.get('control_file'):
+        yield dict(sc, control_file=False)
     if sc.get('consumer_on_cut'):
         yield dict(sc, consumer_on_cut=None)
     if sc['live']:
